@@ -437,20 +437,6 @@ func blockReaches(from, to *ssa.BasicBlock, strict bool) bool {
 	return walk(from)
 }
 
-// storedTo: the function stores to the same field of the same base somewhere.
-func (lg *ledger) storedTo(fa *ssa.FieldAddr) bool {
-	for _, b := range lg.fn.Blocks {
-		for _, ins := range b.Instrs {
-			if st, ok := ins.(*ssa.Store); ok {
-				if fa2, ok := st.Addr.(*ssa.FieldAddr); ok && fa2.Field == fa.Field && lg.key(fa2.X) == lg.key(fa.X) {
-					return true
-				}
-			}
-		}
-	}
-	return false
-}
-
 // ---- edge facts -----------------------------------------------------------------
 
 type edgeFact struct {
